@@ -1,1 +1,6 @@
 import EmdModel.Basic
+import EmdModel.H5
+import EmdModel.Tree
+import EmdModel.Write
+import EmdModel.Save
+import EmdModel.Read
